@@ -242,3 +242,29 @@ package op
 //@   requires 0 <= b && b < 18446744073709551616
 //@   ensures (err == nil) == (b != 0)
 //@   ensures err == nil ==> x == b
+
+// ---- nonsense settings are refused (C09) ----
+//@ func Meter.validate returns (err)
+//@   pure
+//@   ensures (err == nil) == (m.Denom >= 1 && m.Num >= 1)
+
+//@ func NewMeter returns (m, err)
+//@   pure
+//@   ensures (err == nil) == (denom >= 1 && num >= 1)
+//@   ensures m.Num == num && m.Denom == denom
+
+//@ func BPM.validate returns (err)
+//@   pure
+//@   ensures (err == nil) == (b != 0)
+
+//@ func NewBPM returns (b, err)
+//@   pure
+//@   ensures (err == nil) == (v != 0)
+//@   ensures b == v
+
+// an unknown dynamic is refused and leaves the destination alone; an accepted one is one of the six signs
+//@ func DynamicSign.UnmarshalYAML returns (err)
+//@   modifies d
+//@   requires d != nil && value != nil
+//@   ensures err == nil ==> validDyn(*d)
+//@   ensures err != nil ==> *d == old(*d)
